@@ -36,6 +36,8 @@ var c16Envelopes = []struct {
 	{"sender@a.example", []string{"r1@b.example", "r2@b.example"}},
 	{"100%%real@a.example", []string{"user%example.org@relay.example", "%s%d%v@b.example"}},
 	{"a+b=c@a.example", []string{"x!y#z@b.example", "o'brien+tag@b.example", "{curly}|pipe~@b.example"}},
+	{"", []string{"postmaster@b.example"}}, // the null reverse-path (a bounce); the client adds BODY=8BITMIME behind it
+	{"Sender.Name@A.Example", []string{"R1@b.example", "r1@b.example", "a@[192.0.2.1]"}},
 }
 
 func evalC16(c C16Case) *h.Finding {
@@ -211,7 +213,7 @@ func C16(tier string) int {
 		maxTok = 7
 	}
 	tokens := []string{".", "\n", "\r\n", "a"}
-	run.Rule = fmt.Sprintf("all message bodies of <=%d tokens over {'.', LF, CRLF, 'a'} (and the empty body) x partitions into Write calls {one Write, one octet per Write, every 2-split} x server verdict {accept, reject} x {SMTP, LMTP}, cycling through 3 envelopes (plain; '%' in sender and recipients; atext specials), each a complete real-client -> real-server conversation in a synctest bubble (a client waiting for a reply that never comes is reported by the runtime as a deadlock). Distinct by construction; non-trivial = body contains '.' or a line break. Oracle: backend octets == ref.DotStuffNormalize(body) then EOF; envelope as given; Close returns the server's verdict; a second Close returns an error, writes nothing and causes no reply; the connection stays in step. Every body also against a server with MaxMessageBytes = every value 1..message size (one Write, accepting backend): over the limit Close returns 552 and the backend never sees a complete message, at the limit the message arrives intact. Labelled supplement: seeded random 8-bit bodies.", maxTok)
+	run.Rule = fmt.Sprintf("all message bodies of <=%d tokens over {'.', LF, CRLF, 'a'} (and the empty body) x partitions into Write calls {one Write, one octet per Write, every 2-split} x server verdict {accept, reject} x {SMTP, LMTP}, cycling through 5 envelopes (plain; '%' in sender and recipients; atext specials; the null sender; mixed case with recipients differing in case only and an address literal), each a complete real-client -> real-server conversation in a synctest bubble (a client waiting for a reply that never comes is reported by the runtime as a deadlock). Distinct by construction; non-trivial = body contains '.' or a line break. Oracle: backend octets == ref.DotStuffNormalize(body) then EOF; envelope as given; Close returns the server's verdict; a second Close returns an error, writes nothing and causes no reply; the connection stays in step. Every body also against a server with MaxMessageBytes = every value 1..message size (one Write, accepting backend): over the limit Close returns 552 and the backend never sees a complete message, at the limit the message arrives intact. Labelled supplement: seeded random 8-bit bodies.", maxTok)
 	run.Assumptions = []string{"CR occurs only as part of CRLF (as the statement requires)", "an empty body arrives as a single CRLF ('final CRLF ensured')"}
 	var bodies [][]byte
 	var rec func(cur []byte, n int)
